@@ -118,6 +118,13 @@ def config_space(ctx, big=False):
     cfgs = configs.named("quick" if (ctx.quick() and not big) else "thorough")
     cfgs = cfgs + [configs.C("ast-all-fenced", renderer="ast", plugins=configs.PLUGINS, directives="fenced"),
                    configs.C("ast-all-rst", renderer="ast", plugins=configs.PLUGINS, directives="rst")]
+    # the documented helper plugins that extend the rule lists of quotes and list items (reachable by dotted name), alone and TOGETHER: each
+    # assumes it owns the list it appends to
+    H = {"tq": "mistune.plugins.table.table_in_quote", "tl": "mistune.plugins.table.table_in_list", "mq": "mistune.plugins.math.math_in_quote", "ml": "mistune.plugins.math.math_in_list"}
+    combos = [("tq", "tl"), ("mq", "ml"), ("tq", "tl", "mq", "ml"), ("tl", "mq"), ("tq",), ("ml",)]
+    for cb in (combos if not (ctx.quick() and not big) else [combos[0], combos[2], ctx.rng.choice(combos[1:])]):
+        base = (["table"] if any(k[0] == "t" for k in cb) else []) + (["math"] if any(k[0] == "m" for k in cb) else [])
+        cfgs.append(configs.C("helpers-" + "-".join(cb), renderer=ctx.rng.choice(["html", "ast"]), plugins=base + [H[k] for k in cb]))
     for _ in range(4 if (ctx.quick() and not big) else 30):
         c = configs.random_cfg(ctx.rng, html_only=False)
         c["name"] = "rand-%d" % ctx.rng.randint(0, 10 ** 6)
